@@ -102,7 +102,7 @@ class _Runaway(MachineryError):
 
 def _guard_on(tier):
     import resource, signal
-    cap = int(os.environ.get("VERIF_MEM_GB", "12")) << 30
+    cap = int(os.environ.get("VERIF_MEM_GB", "12" if tier == "quick" else "24")) << 30
     try:
         soft, hard = resource.getrlimit(resource.RLIMIT_AS)
         resource.setrlimit(resource.RLIMIT_AS, (cap if hard == resource.RLIM_INFINITY else min(cap, hard), hard))
